@@ -193,12 +193,11 @@ class LibMixin:
             return OpaqueV(f"pydantic.{attr}")
         elif n in ("hypothesis", "hypothesis.strategies"):
             raise Raised(InstV(L("ImportError"), {"args": (f"{n} is modelled as not installed",)}))
-        # unknown attribute of a library module: a sub-module or something opaque
-        if n in ("collections", "os", "sys", "pathlib", "re", "json", "textwrap", "importlib", "hypothesis"):
-            if n == "hypothesis":
-                raise Raised(InstV(L("ImportError"), {"args": ("hypothesis is modelled as not installed",)}))
-            return OpaqueV(f"{n}.{attr}")
-        self.limit(f"library attribute {n}.{attr} is not modelled", node)
+        # unknown attribute of a library module: opaque.  An opaque value that reaches a computation the
+        # analyses depend on ends in an analysis limit there, never in a silent verdict.
+        if n == "textwrap" and attr in ("dedent", "indent"):
+            return F(f"textwrap.{attr}")
+        return OpaqueV(f"{n}.{attr}")
 
     def module(self, name):  # extends InterpCore.module for third-party packages modelled as absent
         if name.split(".")[0] in ("hypothesis",) and self.sm.get(name) is None:
@@ -694,6 +693,18 @@ class LibMixin:
     def lib_map(self, a, kw, run, node):
         return tuple(self.call(a[0], [x], {}, run, node) for x in self.iterate_concrete(a[1], run, node))
 
+    def lib_dir(self, a, kw, run, node):
+        if a and isinstance(a[0], LibModule) and a[0].name == "builtins":
+            import builtins as _b
+            return ListV(sorted(dir(_b)))
+        self.limit("dir() of a non-builtin object", node)
+
+    def lib_textwrap_dedent(self, a, kw, run, node):
+        import textwrap
+        if isinstance(a[0], str):
+            return textwrap.dedent(a[0])
+        return Sym(("dedent", term_of(a[0])), "str")
+
     def lib_id(self, a, kw, run, node):
         return id(a[0])
 
@@ -1131,7 +1142,7 @@ class LibMixin:
     def binop(self, op, a, b, run, node):
         if isinstance(a, Sym) or isinstance(b, Sym):
             return self.sym_binop(op, a, b, run, node)
-        if op == "or" and (self.is_typeish(a) or self.is_typeish(b)):
+        if op == "or" and (self.is_typeish(a) or self.is_typeish(b)) and not (isinstance(a, OpaqueV) and isinstance(b, (str, int))):
             return UnionV((a, b))
         if isinstance(a, EnumMemberV) and isinstance(a.value, int):
             a = a.value
@@ -1139,6 +1150,8 @@ class LibMixin:
             b = b.value
         if isinstance(a, ListV) and isinstance(b, ListV) and op == "add":
             return ListV(a.items + b.items)
+        if isinstance(a, OpaqueV) or isinstance(b, OpaqueV):
+            return OpaqueV(f"({a!r} {op} {b!r})"[:80])
         if isinstance(a, Obj) or isinstance(b, Obj):
             self.limit(f"binary {op} on {a!r}, {b!r}", node)
         import operator as _o
